@@ -19,11 +19,12 @@ Inductive reach : node -> node -> Prop :=
 | reach_content n c m : In c (n_content n) -> reach c m -> reach n m
 | reach_alias n t m : n_alias n = Some t -> reach t m -> reach n m.
 
+(** What the proof needs of a node: alias fields only on alias nodes, and wherever strict mode's kindMismatch test
+    (b22de24, 4a0d172) lets the node pass as a [k], it either is a [k] or holds nothing (an alias node, a null).
+    [wf_doc_of_shape] below derives this from purely structural facts about yaml.v3 forests plus strict validity. *)
 Definition wf_node (m : node) : Prop :=
   (n_alias m <> None -> n_kind m = KAlias) /\
-  (n_tag m = mapTag -> n_kind m = KMapping \/ inert m) /\
-  (n_tag m = seqTag -> n_kind m = KSequence \/ inert m) /\
-  (n_tag m = nullTag -> inert m).
+  (forall k, kind_mismatch m k = false -> n_kind m = k \/ inert m).
 
 Definition wf_doc (d : node) : Prop :=
   n_kind d = KDocument /\ (forall c, In c (n_content d) -> n_alias c = None) /\ forall m, reach d m -> wf_node m.
@@ -162,7 +163,7 @@ Section C19.
     group_entry plines metric_ok lname_ok lvalue_ok dur_ok int_ok thanos lines g k v = inr g1 ->
     (node_value k = "name" /\ g1 = g_set_name g (n_value v) /\ n_kind v = KScalar /\ n_value v <> "") \/
     (node_value k = "labels" /\ g1 = g_set_labels g (new_yaml_map plines lines 0 k (match n_alias v with Some t => t | None => v end))) \/
-    (node_value k = "rules" /\ g1 = g_add_rules g (map (PRS lines) (unpack_nodes v)) /\ is_tag (n_tag v) seqTag = true) \/
+    (node_value k = "rules" /\ g1 = g_add_rules g (map (PRS lines) (unpack_nodes v)) /\ kind_mismatch v KSequence = false) \/
     (node_value k <> "name" /\ node_value k <> "labels" /\ node_value k <> "rules" /\ g1 = g).
   Proof.
     unfold group_entry. repeat break_if; intros H; try discriminate; inversion H; subst; clear H; eqb_hyps.
@@ -177,10 +178,7 @@ Section C19.
                end] ].
   Qed.
 
-  Definition value_wf (v : node) : Prop :=
-    (n_alias v <> None -> n_kind v = KAlias) /\
-    (n_tag v = seqTag -> n_kind v = KSequence \/ inert v) /\
-    (n_tag v = nullTag -> inert v).
+  Definition value_wf (v : node) : Prop := wf_node v.
 
   Definition entries_wf (l : list (node * node)) : Prop :=
     forall k v, In (k, v) l -> value_wf v.
@@ -253,9 +251,7 @@ Section C19.
         * apply kind_eqb_eq in KS. apply IH; auto.
           cbn [rules_inv g_add_rules g_rules]. rewrite Hinv. cbn [app]. repeat split; auto.
         * assert (Hin : inert v).
-          { destruct Hvwf as (_ & W4 & W5). destruct (is_tag_cases _ _ Htag) as [T|T].
-            - auto.
-            - destruct (W4 T) as [K|I]; [|exact I]. rewrite K in KS. discriminate. }
+          { destruct Hvwf as (_ & W4). destruct (W4 KSequence Htag) as [K|I]; [|exact I]. rewrite K in KS. discriminate. }
           apply IH; auto.
           cbn [rules_inv g_add_rules g_rules]. rewrite Hinv. destruct Hin as [Hc _].
           now rewrite (unpack_nodes_inert v Hc).
@@ -402,7 +398,7 @@ Section C19.
   Qed.
 
   Lemma wf_value m : wf_node m -> value_wf m.
-  Proof. intros (W0 & _ & W4 & W5). split; [exact W0|split; [exact W4|exact W5]]. Qed.
+  Proof. exact (fun H => H). Qed.
 
   Lemma entries_wf_of_node root c :
     (forall m, reach root m -> wf_node m) -> reach root c -> entries_wf (mapping_nodes c).
@@ -460,7 +456,7 @@ Section C19.
       { unfold parent_is. rewrite Ek. reflexivity. }
       cbn [map concat_opt].
       assert (Hcases : n_kind v = KSequence \/ inert v).
-      { destruct (Hwf v Hrv) as (_ & _ & W4 & W5). destruct (is_tag_cases _ _ Et) as [T|T]; auto. }
+      { destruct (Hwf v Hrv) as (_ & W4). exact (W4 KSequence Ekm). }
       destruct Hcases as [Hk|Hin].
       + destruct (groups_seq_relaxed fuel thanos lines (unpack_nodes v) names acc names1 acc1) as (gs & new & -> & Hc & Hr); auto.
         { intros c Hc. exact (unpack_entries_wf root v c Hwf Hrv Hc). }
@@ -490,7 +486,7 @@ Section C19.
       destruct (IH _ _ _ _ Hwf (fun x Hx => Hr x (or_intror Hx)) H Hok) as (gs2 & new2 & -> & Hc2 & Hr2).
       assert (Hn : reach root n) by (apply Hr; left; reflexivity).
       assert (Hcases : n_kind n = KMapping \/ inert n).
-      { destruct (Hwf n Hn) as (_ & W3 & _ & W5). destruct (is_tag_cases _ _ Et) as [T|T]; auto. }
+      { destruct (Hwf n Hn) as (_ & W3). exact (W3 KMapping Ekm). }
       assert (Hok1 : forall g, In g acc1 -> group_ok g).
       { intros g Hg. apply Hok. apply in_or_app. left. exact Hg. }
       cbn [map concat_opt].
@@ -574,5 +570,108 @@ Section C19.
       destruct (strict_prepass null_ok d2); [intros [He _]; discriminate|].
       destruct (parse_groups _ _ _ _ _ _ _ _ d2); [intros [He _]; discriminate|].
       intros [He _]. exfalso. revert He. apply strict_loop_multi; [lia|]. cbn. discriminate.
+  Qed.
+
+  (** ---- the guard derived from strict validity (fixes b22de24 + 4a0d172 + b9483ac) ----
+      Purely STRUCTURAL facts, true of every forest yaml.v3 builds (checked executably on every correspondence case
+      by [shaped_b], Run/C19.v): the document node is a document whose roots are not aliases; alias fields only on
+      alias nodes; alias and scalar nodes have no content; only scalars carry an embedded document. *)
+  Definition shape_node (m : node) : Prop :=
+    (n_alias m <> None -> n_kind m = KAlias) /\
+    (n_kind m = KAlias \/ n_kind m = KScalar -> n_content m = []) /\
+    (n_kind m <> KScalar -> n_embedded m = None).
+
+  Definition shape_doc (d : node) : Prop :=
+    n_kind d = KDocument /\ (forall c, In c (n_content d) -> n_alias c = None) /\ forall m, reach d m -> shape_node m.
+
+  (** The one fact about the oracle [null_ok] (yaml.Node.Decode into `any` gives nil): such a scalar is one of the
+      spellings of null, its value has no line break, so it never carries an embedded document. *)
+  Definition null_oracle_ok : Prop :=
+    forall m, n_kind m = KScalar -> n_tag m = nullTag -> null_ok m = true -> n_embedded m = None.
+
+  Fixpoint find_first {A} (f : A -> option node) (l : list A) : option node :=
+    match l with
+    | [] => None
+    | c :: r => match f c with Some x => Some x | None => find_first f r end
+    end.
+
+  Lemma find_node_unfold P n :
+    find_node P n =
+    match P n with
+    | Some x => Some x
+    | None =>
+        match (match n_alias n with Some t => find_node P t | None => None end) with
+        | Some x => Some x
+        | None => find_first (find_node P) (n_content n)
+        end
+    end.
+  Proof.
+    destruct n as [k t v l c a content al em]. cbn [find_node n_alias n_content].
+    destruct (P _); [reflexivity|].
+    destruct (match al with Some t0 => find_node P t0 | None => None end); [reflexivity|].
+    induction content as [|x r IH]; [reflexivity|]. cbn [find_first]. destruct (find_node P x); [reflexivity|exact IH].
+  Qed.
+
+  Lemma find_first_none {A} (f : A -> option node) : forall l c, find_first f l = None -> In c l -> f c = None.
+  Proof.
+    induction l as [|x r IH]; intros c H Hc; [destruct Hc|]. cbn [find_first] in H.
+    destruct (f x) eqn:E; [discriminate|]. destruct Hc as [<-|Hc]; [exact E|exact (IH c H Hc)].
+  Qed.
+
+  (** a pre-pass that found nothing found nothing at any node reachable through content and aliases *)
+  Lemma find_node_none P d m : reach d m -> find_node P d = None -> P m = None.
+  Proof.
+    induction 1 as [n|n c m Hc Hr IH|n t m Ha Hr IH]; intros H; rewrite find_node_unfold in H.
+    - destruct (P n); [discriminate|reflexivity].
+    - destruct (P n); [discriminate|].
+      destruct (match n_alias n with Some t => find_node P t | None => None end); [discriminate|].
+      exact (IH (find_first_none _ _ c H Hc)).
+    - destruct (P n); [discriminate|]. rewrite Ha in H.
+      destruct (find_node P t) eqn:E; [discriminate|]. exact (IH eq_refl).
+  Qed.
+
+  Lemma wf_node_of_shape m :
+    shape_node m -> null_oracle_ok ->
+    (n_kind m = KScalar -> n_tag m = nullTag -> null_ok m = true) ->
+    wf_node m.
+  Proof.
+    intros (S1 & S2 & S3) Hor Hnull. split; [exact S1|].
+    intros k Hkm. unfold kind_mismatch in Hkm.
+    destruct (n_alias m) as [t|] eqn:Ea.
+    - (* an alias node holds nothing itself *)
+      right. assert (K : n_kind m = KAlias) by (apply S1; discriminate).
+      split; [apply S2; left; exact K|apply S3; rewrite K; discriminate].
+    - destruct ((n_tag m =? nullTag) && kind_eqb (n_kind m) KScalar)%bool eqn:E.
+      + apply andb_true_iff in E. destruct E as [E1 E2]. apply String.eqb_eq in E1. apply kind_eqb_eq in E2.
+        right. split; [apply S2; right; exact E2|exact (Hor m E2 E1 (Hnull E2 E1))].
+      + apply negb_false_iff in Hkm. apply kind_eqb_eq in Hkm. left. exact Hkm.
+  Qed.
+
+  Lemma wf_doc_of_shape d :
+    shape_doc d -> null_oracle_ok -> strict_prepass null_ok d = None -> wf_doc d.
+  Proof.
+    intros (Hk & Hna & Hs) Hor Hp. split; [exact Hk|]. split; [exact Hna|].
+    intros m Hr. apply wf_node_of_shape; [exact (Hs m Hr)|exact Hor|].
+    intros K T. unfold strict_prepass in Hp.
+    destruct (find_node (null_with_text null_ok) d) as [x|] eqn:F; [discriminate|].
+    pose proof (find_node_none _ d m Hr F) as N. unfold null_with_text in N.
+    rewrite K, T in N. cbn [kind_eqb andb] in N. rewrite String.eqb_refl in N. cbn [andb] in N.
+    destruct (null_ok m); [reflexivity|discriminate].
+  Qed.
+
+  (** relaxed = strict on EVERY strict-valid document of a yaml-shaped forest: no guard about tags is left. *)
+  Theorem relaxed_eq_strict_shaped thanos lines d nl :
+    shape_doc d -> null_oracle_ok ->
+    strict_valid (parse_strict plines metric_ok lname_ok lvalue_ok dur_ok int_ok null_ok thanos lines [(d, nl)] None) ->
+    exists f', parse_relaxed plines metric_ok lname_ok lvalue_ok lines [(d, nl)] None = Some f' /\
+               f_error f' = None /\
+               all_rules (f_groups f') =
+               all_rules (f_groups (parse_strict plines metric_ok lname_ok lvalue_ok dur_ok int_ok null_ok thanos lines [(d, nl)] None)).
+  Proof.
+    intros Hs Hor Hv. apply relaxed_eq_strict_doc; [|exact Hv].
+    apply wf_doc_of_shape; [exact Hs|exact Hor|].
+    revert Hv. unfold parse_strict. cbn [parse_strict_loop].
+    destruct (too_big d); [intros [He _]; discriminate|].
+    destruct (strict_prepass null_ok d); [intros [He _]; discriminate|reflexivity].
   Qed.
 End C19.
